@@ -2391,6 +2391,143 @@ def cest_jobs(ck):
     return out
 
 
+# ---------------------------------------------------------------------------------- seventh engine: Syclop::RegionSet
+# the counting PDF of control::Syclop (start / goal region sets): insert(r) = `regions.add(r, 1)` for a new region, else
+# `regions.update(elem, regions.getWeight(elem) + 1)`; clear(); sampleUniform(); size(); empty().  harness/regionset.cpp drives
+# the real (private, nested) class; oracle: an independent insertion counter; model: the cell-PDF protocol model of
+# `Model/CellPdf.lean` under `cellpdf count` (theorem regionset_sync), bit for bit, element order and back-pointers included.
+def build_regionset(ck):
+    return ck.build_harness("regionset", ["regionset.cpp"], link_ompl=True)
+
+
+def gen_regionset(r, i):
+    nreg = r.choice([1, 2, 3, 5, 8, 9, 17, 40])
+    L = ["regionset"]
+    if r.chance(1, 4):
+        L += ["sz", "smp"]                                      # empty set first
+    for _ in range(r.choice([3, 20, 80, 250])):
+        k = r.below(100)
+        if k < 78:
+            L.append("ins %d" % r.below(nreg))
+        elif k < 90:
+            L.append("smp")
+        elif k < 97:
+            L.append("sz")
+        else:
+            L.append("clear")
+            if r.chance(1, 2):
+                L += ["sz", "smp"]
+    return L
+
+
+def regionset_one(ck, hbin, script):
+    """returns (failure | None, tie | None, impl)"""
+    impl, rc, err = ck.run_bin(hbin, script, timeout=300)
+    impl = impl or []
+    ops = script[1:]
+    cnt = {}
+    mops = ["cellpdf count"]
+    marks = []
+    for i, ln in enumerate(ops):
+        if i >= len(impl):
+            tail = " ".join((err or "").strip().splitlines()[-6:])[-500:]
+            return (i, "implementation stopped at %r (exit %s): %s" % (ln, rc, tail), "crash"), None, impl
+        res, sep, dump = impl[i].partition(" | ")
+        t = ln.split()
+        if t[0] == "ins":
+            cnt[int(t[1])] = cnt.get(int(t[1]), 0) + 1
+            mops.append("addm %s" % t[1])
+            exp = "ok"
+        elif t[0] == "clear":
+            cnt = {}
+            mops.append("cclear")
+            exp = "ok"
+        elif t[0] == "sz":
+            exp = "sz=%d e=%d" % (len(cnt), 0 if cnt else 1)
+        else:
+            exp = None
+            if not cnt:
+                exp = "r=-1"
+            elif not res.startswith("r=") or int(res[2:]) not in cnt:
+                return (i, "sampleUniform returned %s, the inserted regions are %s" % (res, sorted(cnt)[:20]), "spec"), None, impl
+        if exp is not None and res != exp:
+            return (i, "%s answered %r, the insertion counter says %r" % (ln, res, exp), "spec"), None, impl
+        try:
+            tk = dump.split()
+            n = int(tk[0][2:])
+            ix = [x for x in tk[1][3:].split(",") if x]
+            nrows = int(tk[2][5:])
+            rows = [[int(v) for v in tok[1:-1].partition(":")[2].split(",") if v] for tok in tk[3:3 + nrows]]
+            cells = [c.split(":") for c in tk[3 + nrows][6:].split(";") if c]
+            nmap = int(tk[4 + nrows][4:])
+        except Exception as e:  # noqa
+            return (i, "unparsable dump (%r)" % (e,), "spec"), None, impl
+        if n != len(cnt) or nmap != len(cnt) or len(cells) != n:
+            return (i, "%d regions inserted, the PDF holds %d elements, regToElem %d entries" % (len(cnt), n, nmap), "spec"), None, impl
+        if ix != [str(j) for j in range(n)]:
+            return (i, "PDF index_ fields out of sync: %s" % ",".join(ix), "spec"), None, impl
+        if sorted(int(c[0]) for c in cells) != sorted(cnt) or any(c[1] != "1" for c in cells):
+            return (i, "PDF elements %s do not match the inserted regions %s one to one through regToElem" % (cells[:8], sorted(cnt)[:8]), "spec"), None, impl
+        if n:
+            want = [n]
+            while want[-1] > 1:
+                want.append((want[-1] + 1) // 2)
+            if [len(r_) for r_ in rows] != want:
+                return (i, "PDF row sizes %s, expected %s" % ([len(r_) for r_ in rows], want), "spec"), None, impl
+            for j, c in enumerate(cells):
+                if rows[0][j] != int(B(float(cnt[int(c[0])]))):
+                    return (i, "weight of region %s is %r but it was inserted %d times" % (c[0], F(str(rows[0][j])), cnt[int(c[0])]), "spec"), None, impl
+            for lvl in range(1, len(rows)):                      # small integers: every sum is exact
+                for j, vb in enumerate(rows[lvl]):
+                    if F(str(vb)) != sum(F(str(x)) for x in rows[lvl - 1][2 * j:2 * j + 2]):
+                        return (i, "PDF cell row %d col %d = %r is not the sum of its children" % (lvl, j, F(str(vb))), "spec"), None, impl
+        elif rows:
+            return (i, "empty RegionSet keeps tree rows", "spec"), None, impl
+        marks.append((i, len(mops) - 1, " ".join(tk[:3 + nrows]), [(c[0], str(cnt[int(c[0])]), c[1]) for c in cells]))
+    if rc != 0:
+        return (len(ops) - 1, "harness exit code %s: %s" % (rc, (err or "")[-300:]), "crash"), None, impl
+    model, rc2, _ = ck.run_bin(ck.driver(DRIVER), mops)
+    for i, k, pdfline, want in marks:
+        if k == 0:
+            continue
+        ml = model[k - 1] if k - 1 < len(model) else "<missing>"
+        gt = ml.partition(" | ")[2].split()
+        ctok = gt.pop()[6:] if gt and gt[-1].startswith("cells=") else "?"
+        got = " ".join(gt[:1] + gt[2:])
+        mcells = [tuple(c.split(":")) for c in ctok.split(";") if c]
+        if got != pdfline or mcells != want or not ml.startswith("ok | "):
+            return None, (i, "after %r: RegionSet's PDF differs from the counting cell-PDF model: impl %s cells %s | model %s %s cells %s" % (
+                ops[i], pdfline[:160], want[:8], ml[:3], got[:160], mcells[:8])), impl
+    return None, None, impl
+
+
+def regionset_jobs(ck):
+    r = ck.rng.fork("regionset")
+    return [gen_regionset(r.fork("s%d" % i), i) for i in range(24 if ck.tier == "quick" else 240)]
+
+
+def regionset_judge(ck, script, res):
+    fail, tie, impl = res
+    ck.traces_validated += 1
+    ck.case(("regionset", tuple(script)), len(script) > 20)
+    ck.count("regionset:scripts")
+    for ln in script[1:]:
+        ck.count("regionset:op:" + ln.split()[0])
+    if fail is not None:
+        scr = script[:fail[0] + 2]
+        ck.report({"engine": "regionset", "kind": fail[2], "what": fail[1]}, script=scr, expected=None, observed=(impl or [])[-3:], engine="regionset")
+        ck.log("regionset property failure: %s" % fail[1][:300])
+        return False
+    if tie is not None:
+        ck.disagreements += 1
+        ck.report({"engine": "regionset", "what": "RegionSet PDF vs counting cell-PDF model"}, script=script, expected=None, observed=[tie[1]],
+                  found_input=False, engine="regionset",
+                  obligation="correspondence regionset: Syclop::RegionSet vs OmplModel.Model.CellPdf (%s)" % tie[1][:300])
+        ck.log("regionset correspondence: %s" % tie[1][:300])
+        return False
+    return True
+
+
 def setup(ck):
     build(ck)
     build_sbl(ck)
@@ -2398,6 +2535,7 @@ def setup(ck):
     build_est(ck)
     build_projest(ck)
     build_atlas(ck)
+    build_regionset(ck)
 
 
 def plan(ck):
@@ -2462,6 +2600,7 @@ def run(ck):
     abin = build_atlas(ck)
     sbin = build_sbl(ck)
     cbin = build_cest(ck)
+    rbin = build_regionset(ck)
     if not ck.lean_ok:
         return 0
     scripts = plan(ck)
@@ -2475,6 +2614,8 @@ def run(ck):
         pres = [ex.submit(projest_one, ck, pbin, p) for p in pjobs]
         ares = [ex.submit(atlas_one, ck, abin, sc_) for _, sc_ in ajobs]
         sres = [ex.submit(sbl_ops_one if tg == "ops" else sbl_run_one, ck, bin_, p_, sc_) for _e, bin_, tg, p_, sc_ in sjobs]
+        rjobs = regionset_jobs(ck)
+        rres = [ex.submit(regionset_one, ck, rbin, sc_) for sc_ in rjobs]
         results = ex.map(lambda ts: run_script(ck, hbin, ts[1]), scripts)
         for (tag, script), res in zip(scripts, results):
             if bad >= 3:
@@ -2509,10 +2650,31 @@ def run(ck):
                 continue
             if not sbl_judge(ck, tg, p_, sc_, fut.result(), eng):
                 sbad[eng] += 1
+        rbad = 0
+        for sc_, fut in zip(rjobs, rres):
+            if rbad >= 3:
+                fut.cancel()
+                continue
+            if not regionset_judge(ck, sc_, fut.result()):
+                rbad += 1
     return 0
 
 
 def replay(ck, data):
+    if data.get("engine") == "regionset":
+        rbin = build_regionset(ck)
+        ck.lean_build([DRIVER])
+        fail, tie, impl = regionset_one(ck, rbin, data["script"])
+        for l in (impl or [])[-4:]:
+            print("impl: " + l[:400])
+        if fail:
+            print("PROPERTY FAILS: %s" % fail[1])
+            return 1
+        if tie:
+            print(tie[1])
+            return 1
+        print("no failure on the current tree")
+        return 0
     if data.get("engine") in ("sbl", "cest"):
         sbin = build_sbl(ck) if data["engine"] == "sbl" else build_cest(ck)
         ck.lean_build([DRIVER])
@@ -2610,13 +2772,16 @@ MANIFEST = {
             "theorems cellpdf_sync, cellpdf_inbounds).  Every container access of add/update/remove is explicit in checked twins "
             "that the driver runs (theorem edits_inbounds: never outside the storage, for every history and weight type); "
             "proportionality is proved as the exact set of sampling values per element and as Lebesgue measure w_i/total "
-            "(sample_iff_interval, sample_proportional, sample_probability).",
+            "(sample_iff_interval, sample_proportional, sample_probability).  The two-vector constructor is a fold of add from the "
+            "empty structure (ctor_is_adds, ctor_spec, storage_empty_iff: tree_ empty iff data_ empty) and is put under test as the "
+            "object the history continues on; Syclop::RegionSet's counting PDF is driven and tied to the same protocol model "
+            "(regionset_sync).",
     "note": "Trusted: Lean kernel, the three standard axioms, the hand-written models outside the scripts the correspondence "
             "explored, the harnesses (private/protected opened in their own translation units). Arithmetic theorems are over "
             "exact ordered rings/fields; IEEE rounding is executed (models at Float, bit-compared) and proportionality under "
             "rounding is bounded by the oracle's per-node relative budget only. Weights >= 0 and finite is the contract: with NaN / "
             "infinite / negative (update) weights or overflowing sums only memory safety, size, handles, index_ and the stored "
-            "weights are demanded. Dead handles are outside the contract. PDF users not driven: BiEST, pSBL, Syclop, LTLPlanner, "
+            "weights are demanded. Dead handles are outside the contract. PDF users not driven: BiEST, pSBL, Syclop's availDist_, LTLPlanner, "
             "PRM::expandRoadmap's and the multilevel samplers' local PDFs (not observable without hooks).",
     "technique": "Lean 4 proof (invariants by induction over operations, descent invariant, refinement; planner models on top) + "
                  "differential correspondence + protocol replay through the model",
